@@ -64,6 +64,16 @@ def run(ctx):
         cases.append({"w": wire.case("wrap_as_signable", pl), "meta": {"pi": -1, "seq": []}})
     for pl in payloads[:20]:
         cases.append({"w": wire.case("wrap_as_signable", pl), "meta": {"pi": -2, "seq": []}})
+    # sign, edit the payload, sign again (same and other keys): the envelope must carry signatures over the CURRENT payload
+    for pi, pl in enumerate(payloads[:(10 if ctx.quick else 60)]):
+        eds = edits(pl)[:6] if isinstance(pl, (dict, list)) else [("replace", {"other": pi})]
+        for tag, new in eds + [("same", pl)]:
+            for s1, s2 in (([0], [0]), ([0, 1], [1]), ([0], [1]), ([0, 1], [1, 0]), ([1], [])):
+                try:
+                    cases.append({"w": wire.case("sign_edit_sign", pl, [SEEDS[i] for i in s1], new, [SEEDS[i] for i in s2]),
+                                  "meta": {"pi": -3, "seq": s1 + s2, "edit": tag}})
+                except TypeError:
+                    pass
 
     def rel(c, io, mo):
         if io.startswith("O") != mo.startswith("O"):
@@ -74,6 +84,19 @@ def run(ctx):
 
     def oracle(c, io):
         tup = wire.dec(c["w"])
+        if tup[0] == "sign_edit_sign" and io.startswith("O"):
+            _, pl, s1, new, s2 = tup
+            env = wire.dec(io[1:])
+            if wire.enc(env.get("signed")) != wire.enc(new):
+                return "payload is not the edited payload"
+            want = {}
+            for sd in s1:
+                want[PUBHEX[SEEDS.index(sd)]] = E.raw_sig(SEEDS.index(sd), pl)
+            for sd in s2:
+                want[PUBHEX[SEEDS.index(sd)]] = E.raw_sig(SEEDS.index(sd), new)
+            if env.get("signatures") != want:
+                return "after sign / edit / sign again the entries of the re-signing keys are not signatures over the current payload"
+            return None
         if tup[0] != "sign_sequence" or not io.startswith("O"):
             if tup[0] == "wrap_as_signable" and io.startswith("O"):
                 env = wire.dec(io[1:])
@@ -113,7 +136,7 @@ def run(ctx):
         if c["meta"]["seq"] != signers:
             continue
         n = len(signers)
-        for K in ([PUBHEX[i] for i in signers], [PUBHEX[i] for i in signers[:1]], [PUBHEX[i] for i in range(5)], [PUBHEX[4]], [PUBHEX[i] for i in signers[1:]] + [PUBHEX[5]]):
+        for K in ([PUBHEX[i] for i in signers], [PUBHEX[i] for i in signers[:1]], [PUBHEX[signers[0]]] * 2, [PUBHEX[i] for i in signers] * 2, [PUBHEX[i] for i in range(5)], [PUBHEX[4]], [PUBHEX[i] for i in signers[1:]] + [PUBHEX[5]]):
             for t in range(1, n + 2):
                 vcases.append({"w": wire.case("verify_signable", env, K, t, False), "meta": {"s": "threshold", "edit": None}})
     for pi, pl in enumerate(payloads[:(8 if ctx.quick else 40)]):
